@@ -24,6 +24,8 @@ import (
 	"time"
 
 	"github.com/pion/ice/v4"
+	"github.com/pion/logging"
+	"github.com/pion/transport/v4/vnet"
 	"pgregory.net/rapid"
 )
 
@@ -48,18 +50,26 @@ type vfC25Case struct {
 	MLine   uint16     `json:"mline"`
 	// AddICECandidate part: 0 = no ufrag extension, 1 = the remote description's ufrag,
 	// 2 = a foreign ufrag, 3 = an empty ufrag value
+	// 4 = the ufrag of the previous generation (the CURRENT remote description while an
+	// ICE-restart offer is pending; simply foreign when there is no history)
 	Ufrag      int  `json:"ufrag"`
 	UfragMedia bool `json:"ufrag_media"` // remote description carries its ufrag at media level
+	// History: 0 = fresh PeerConnection with one applied remote offer; 1 = a first exchange
+	// (offer with the old credentials, answer created and applied) completed, then an
+	// ICE-restart offer with new ufrag/pwd applied and not yet answered (have-remote-offer:
+	// pending and current remote descriptions differ)
+	History int `json:"history,omitempty"`
 }
 
 const (
-	vfC25RemoteUfrag = "vfCtwentyfiveUfrag"
+	vfC25RemoteUfrag = "vfCtwentyfiveUfrag"    // ufrag of the remote description in force
+	vfC25OldUfrag    = "vfCtwentyfiveOldGen"   // ufrag of the previous generation (history 1)
 	vfC25Sentinel    = "candidate:4077567720 1 udp 2130706431 192.0.2.77 47777 typ host"
 )
 
-func vfC25Offer(mediaLevel bool) string {
-	creds := "a=ice-ufrag:" + vfC25RemoteUfrag + "\r\na=ice-pwd:vfCtwentyfivePasswordOf32chars00\r\n"
-	s := "v=0\r\no=- 4596489990601351948 2 IN IP4 127.0.0.1\r\ns=-\r\nt=0 0\r\n" +
+func vfC25Offer(mediaLevel bool, ufrag, pwd string, version int) string {
+	creds := "a=ice-ufrag:" + ufrag + "\r\na=ice-pwd:" + pwd + "\r\n"
+	s := fmt.Sprintf("v=0\r\no=- 4596489990601351948 %d IN IP4 127.0.0.1\r\ns=-\r\nt=0 0\r\n", version) +
 		"a=fingerprint:sha-256 0F:74:31:25:CB:A2:13:EC:28:6F:6D:2C:61:FF:5D:C2:BC:B9:DB:3D:98:14:8D:1A:BB:EA:33:0C:A4:60:A8:8E\r\n" +
 		"a=group:BUNDLE 0\r\n"
 	if !mediaLevel {
@@ -115,6 +125,8 @@ func vfC25Build(c vfC25Case, withUfrag bool) (ice.Candidate, error) {
 			err = cand.AddExtension(ice.CandidateExtension{Key: "ufrag", Value: "someOtherUfrag"})
 		case 3:
 			err = cand.AddExtension(ice.CandidateExtension{Key: "ufrag", Value: ""})
+		case 4:
+			err = cand.AddExtension(ice.CandidateExtension{Key: "ufrag", Value: vfC25OldUfrag})
 		}
 	}
 	return cand, err
@@ -273,8 +285,9 @@ func vfC25Gen(v *vfT) vfC25Case {
 	}
 	c.Mid = rapid.SampledFrom([]string{"0", "", "audio", "1"}).Draw(t, "mid")
 	c.MLine = uint16(rapid.IntRange(0, 3).Draw(t, "mline"))
-	c.Ufrag = rapid.IntRange(0, 3).Draw(t, "ufrag")
+	c.Ufrag = rapid.IntRange(0, 4).Draw(t, "ufrag")
 	c.UfragMedia = rapid.Bool().Draw(t, "ufragMedia")
+	c.History = rapid.IntRange(0, 1).Draw(t, "history")
 	return c
 }
 
@@ -299,6 +312,14 @@ func vfC25NewPC() (*PeerConnection, error) {
 		se := SettingEngine{}
 		se.SetICEMulticastDNSMode(ice.MulticastDNSModeDisabled) // no sockets: remote mDNS names are ignored by the agent
 		se.DisableActiveTCP(true)                               // never dial a generated address
+		// history cases apply a local answer, which starts gathering and the transports: keep all
+		// of it on a virtual network without a router, and keep pion's log quiet
+		if nw, err := vnet.NewNet(&vnet.NetConfig{}); err == nil {
+			se.SetNet(nw)
+		}
+		lf := logging.NewDefaultLoggerFactory()
+		lf.DefaultLogLevel = logging.LogLevelDisabled
+		se.LoggerFactory = lf
 		vfC25API = NewAPI(WithSettingEngine(se))
 	})
 	return vfC25API.NewPeerConnection(Configuration{})
@@ -342,20 +363,48 @@ func vfC25RunAdd(v *vfT, c vfC25Case) {
 		v.Skip("NewPeerConnection: " + err.Error())
 	}
 	defer func() { _ = pc.Close() }()
-	if err := pc.SetRemoteDescription(SessionDescription{Type: SDPTypeOffer, SDP: vfC25Offer(c.UfragMedia)}); err != nil {
-		v.Skip("SetRemoteDescription(harness offer): " + err.Error())
+	const newPwd, oldPwd = "vfCtwentyfivePasswordOf32chars00", "vfCtwentyfiveOldPasswordOf32char"
+	if c.History == 1 {
+		// first generation: offer with the old credentials, answered, answer applied (stable)
+		if err := pc.SetRemoteDescription(SessionDescription{Type: SDPTypeOffer, SDP: vfC25Offer(c.UfragMedia, vfC25OldUfrag, oldPwd, 1)}); err != nil {
+			v.Skip("SetRemoteDescription(first offer): " + err.Error())
+		}
+		ans, err := pc.CreateAnswer(nil)
+		if err != nil {
+			v.Skip("CreateAnswer: " + err.Error())
+		}
+		if err := pc.SetLocalDescription(ans); err != nil {
+			v.Skip("SetLocalDescription(answer): " + err.Error())
+		}
+		// ICE restart by the remote: new ufrag/pwd, applied, not answered
+		if err := pc.SetRemoteDescription(SessionDescription{Type: SDPTypeOffer, SDP: vfC25Offer(c.UfragMedia, vfC25RemoteUfrag, newPwd, 2)}); err != nil {
+			v.Skip("SetRemoteDescription(ICE-restart offer): " + err.Error())
+		}
+		if pc.SignalingState() != SignalingStateHaveRemoteOffer || pc.PendingRemoteDescription() == nil || pc.CurrentRemoteDescription() == nil {
+			v.Skip("history did not reach have-remote-offer with a current and a pending remote description")
+		}
+		v.Label("history=restart-offer-pending")
+	} else {
+		if err := pc.SetRemoteDescription(SessionDescription{Type: SDPTypeOffer, SDP: vfC25Offer(c.UfragMedia, vfC25RemoteUfrag, newPwd, 1)}); err != nil {
+			v.Skip("SetRemoteDescription(harness offer): " + err.Error())
+		}
+		v.Label("history=first-offer")
 	}
 	v.NonTrivial()
-	foreign := c.Ufrag == 2 || c.Ufrag == 3
+	// the remote description in force (pending if there is one, W3C addIceCandidate / RFC 8839:
+	// candidates belong to the most recently applied description) carries vfC25RemoteUfrag only
+	foreign := c.Ufrag == 2 || c.Ufrag == 3 || c.Ufrag == 4
+	inForce := c.Ufrag == 1
+	agentKeeps := c.TCPType != "active" && !strings.HasSuffix(c.Addr, ".local")
 	if err := pc.AddICECandidate(init); err != nil {
 		if foreign {
-			v.Violation("C25/add/foreign-ufrag-error", "AddICECandidate(%q) with a ufrag that is not in the remote description returned %v, want nil (dropped silently)", init.Candidate, err)
+			v.Violation("C25/add/foreign-ufrag-error", "AddICECandidate(%q) with a ufrag that is not in the remote description in force returned %v, want nil (dropped silently)", init.Candidate, err)
 		}
 		v.Violation("C25/add/rejected", "AddICECandidate(%q) = %v; the string is pion's own ToJSON() of %q", init.Candidate, err, orig.Marshal())
 	}
-	if !foreign {
+	if !foreign && !(inForce && agentKeeps) {
 		// Not part of the statement (only counted): does a candidate the agent keeps become visible?
-		if c.TCPType != "active" && !strings.HasSuffix(c.Addr, ".local") {
+		if agentKeeps {
 			landed := false
 			for deadline := time.Now().Add(20 * time.Millisecond); !landed && time.Now().Before(deadline); {
 				n, _, err := vfC25RemoteCount(pc)
@@ -372,8 +421,8 @@ func vfC25RunAdd(v *vfT, c vfC25Case) {
 		}
 		return
 	}
-	// The candidate must not have reached the agent. Adding is asynchronous inside pion/ice, so
-	// push a sentinel behind it, wait until the sentinel is visible, settle, then count.
+	// Adding is asynchronous inside pion/ice, so push a sentinel behind the candidate, wait until
+	// the sentinel is visible, settle, then count.
 	if err := pc.AddICECandidate(ICECandidateInit{Candidate: vfC25Sentinel}); err != nil {
 		v.Skip("sentinel candidate rejected: " + err.Error())
 	}
@@ -398,17 +447,38 @@ func vfC25RunAdd(v *vfT, c vfC25Case) {
 	if err != nil {
 		v.Skip("GetRemoteCandidates: " + err.Error())
 	}
-	if n != 1 {
-		v.Violation("C25/add/foreign-ufrag-added", "candidate %q names a ufrag that is not in the remote description (%s) but the agent now holds %d remote candidates (want only the sentinel)", init.Candidate, vfC25RemoteUfrag, n)
+	if foreign {
+		if n != 1 {
+			class := "C25/add/foreign-ufrag-added"
+			if c.Ufrag == 4 && c.History == 1 {
+				class = "C25/add/old-generation-ufrag-added"
+			}
+			v.Violation(class, "candidate %q names a ufrag that is not in the remote description in force (%s) but the agent now holds %d remote candidates (want only the sentinel)", init.Candidate, vfC25RemoteUfrag, n)
+		}
+		v.Label(fmt.Sprintf("foreign-ufrag-dropped(mode=%d,history=%d)", c.Ufrag, c.History))
+		return
 	}
-	v.Label("foreign-ufrag-dropped")
+	// in-force ufrag, a candidate the agent keeps: it must be there (the sentinel, added later,
+	// already is; a generous grace covers goroutine scheduling inside pion/ice)
+	for deadline := time.Now().Add(3 * time.Second); n < 2 && time.Now().Before(deadline); {
+		time.Sleep(200 * time.Microsecond)
+		if n, _, err = vfC25RemoteCount(pc); err != nil {
+			v.Skip("GetRemoteCandidates: " + err.Error())
+		}
+	}
+	if n < 2 {
+		v.Violation("C25/add/in-force-ufrag-dropped", "candidate %q names the ufrag of the remote description in force (%s) but never reached the agent (the sentinel added after it did); history=%d", init.Candidate, vfC25RemoteUfrag, c.History)
+	}
+	v.Label(fmt.Sprintf("in-force-ufrag-added(history=%d)", c.History))
 }
 
 func TestVerif_C25_AddICECandidate(t *testing.T) {
 	vfProperty(t, "C25", vfOpts{
-		Rule: "the same candidate space, with ufrag extension absent / equal to the remote description's ufrag (session- or media-level) / foreign / empty, passed through ToJSON into AddICECandidate on a fresh PeerConnection with an applied remote offer; non-trivial = every case that reaches AddICECandidate",
+		Rule: "the same candidate space, with ufrag extension absent / equal to the ufrag of the remote description in force (session- or media-level) / foreign / empty / of the previous generation, passed through ToJSON into AddICECandidate on a PeerConnection that either has one applied remote offer or has completed a first exchange and has an ICE-restart offer with new credentials pending (have-remote-offer); non-trivial = every case that reaches AddICECandidate",
 		Assumptions: []string{"mDNS and active TCP are disabled in the SettingEngine so no socket is opened for a generated address",
-			"'not added' is observed through ice.Agent.GetRemoteCandidates after a sentinel candidate added later became visible (adds are asynchronous in pion/ice); if the sentinel never shows the case gives no verdict"},
+			"'not added' is observed through ice.Agent.GetRemoteCandidates after a sentinel candidate added later became visible (adds are asynchronous in pion/ice); if the sentinel never shows the case gives no verdict",
+			"the remote description in force is the pending one when there is one (W3C addIceCandidate, pion's RemoteDescription()); a candidate naming its ufrag must reach the agent unless the agent ignores that candidate kind (active TCP, mDNS disabled) - observed after the sentinel, with a 3 s grace",
+			"history cases run on an isolated vnet: applying the local answer starts gathering and the transports without touching a real socket"},
 	}, func(v *vfT) vfC25Case {
 		_ = rapid.Uint32().Draw(v.R, "salt") // decorrelate from the round-trip property, which shares the seed
 		return vfC25Gen(v)
